@@ -32,13 +32,13 @@ Lemma KQ_ii : rmul KQ (ri KQ) (ri KQ) = ropp KQ (r1 KQ). Proof. apply gc_eq; vm_
 
 (* H = dt = psi = 1: the code's step is 1 - (41/24) i, the Taylor polynomial is 13/24 - (5/6) i *)
 Lemma rk4_witness :
-  rk4_step KQ (r1 KQ) (r1 KQ) (r1 KQ) <> taylor4 KQ (r1 KQ) (r1 KQ) (r1 KQ) /\
-  rk4_step_fixed KQ (r1 KQ) (r1 KQ) (r1 KQ) = taylor4 KQ (r1 KQ) (r1 KQ) (r1 KQ).
+  rk4_step_prefix KQ (r1 KQ) (r1 KQ) (r1 KQ) <> taylor4 KQ (r1 KQ) (r1 KQ) (r1 KQ) /\
+  rk4_step KQ (r1 KQ) (r1 KQ) (r1 KQ) = taylor4 KQ (r1 KQ) (r1 KQ) (r1 KQ).
 Proof.
   split.
   - intro E. apply (f_equal fst) in E. apply (f_equal this) in E. vm_compute in E. discriminate E.
   - apply gc_eq; vm_compute; reflexivity.
 Qed.
 Lemma rk45_witness :
-  rk45_step KQ (r1 KQ) (r1 KQ) (r1 KQ) <> taylor5 KQ (r1 KQ) (r1 KQ) (r1 KQ).
+  rk45_step_prefix KQ (r1 KQ) (r1 KQ) (r1 KQ) <> taylor5 KQ (r1 KQ) (r1 KQ) (r1 KQ).
 Proof. intro E. apply (f_equal fst) in E. apply (f_equal this) in E. vm_compute in E. discriminate E. Qed.
